@@ -701,6 +701,10 @@ def small_rank_cases(tier, seed):
 
 
 def cases(tier, seed):
+    for vendor in ("cisco", "huawei", "juniper", "arista"):
+        if vendor in g.VENDORS:
+            for sc in PINNED:
+                yield dict(kind="pinned", vendor=vendor, name=sc["name"])
     quick = tier == "quick"
     n_rb = 60 if quick else 2500
     n_pairs = 12 if quick else 25
@@ -735,8 +739,48 @@ def cases(tier, seed):
             yield dict(kind="oc", rb="synthetic", vendor=vendor, order=rand_order_text(rnd, neg), cfg=rand_cfg_unmentioned(rnd, neg))
 
 
+PINNED = [
+    # rule words that merely BEGIN with the vendor's negation word (cisco `notify`, huawei `undotify`) are plain commands: they are ranked
+    # by their own rule, and only `<neg> <word> ...` is their removal (mirrored order, in front)
+    dict(name="near-negation-words", order="first *\nalpha *\n{neg}tify *\nzeta *\n",
+         cfg=[["zeta 1", []], ["{neg} alpha 1", []], ["{neg}tify 1", []], ["{neg} zeta 1", []], ["alpha 1", []], ["{neg} {neg}tify 1", []]],
+         expected=[["{neg} zeta 1", []], ["{neg} {neg}tify 1", []], ["{neg} alpha 1", []], ["alpha 1", []], ["{neg}tify 1", []], ["zeta 1", []]]),
+    # the children of a block that is the ONLY child of its parent are ordered like any others
+    dict(name="only-child-block", order="first *\np *\n    first *\n    q *\n        first *\n        r2 *\n        r1 *\n",
+         cfg=[["p 1", [["q 1", [["r1 a", []], ["r2 b", []]]]]]],
+         expected=[["p 1", [["q 1", [["r2 b", []], ["r1 a", []]]]]]]),
+    dict(name="only-child-block-beside-a-leaf", order="first *\np *\n    first *\n    q *\n        first *\n        r2 *\n        r1 *\n",
+         cfg=[["p 1", [["q 1", [["r1 a", []], ["r2 b", []], ["{neg} r1 c", []]]]]], ["zz", []]],
+         expected=[["zz", []], ["p 1", [["q 1", [["{neg} r1 c", []], ["r2 b", []], ["r1 a", []]]]]]]),     # (zz: no rule, rank 0)
+]
+
+
+def _subst(x, neg):
+    if isinstance(x, str):
+        return x.replace("{neg}", neg)
+    return [_subst(y, neg) for y in x]
+
+
+def check_pinned_case(case):
+    """order_config on a small configuration whose ordered form follows from the statement alone (removals in mirrored rule order first,
+    then commands in rule order, children inside their parent, recursively)"""
+    from annet.annlib.patching import Orderer
+    from annet.annlib.rbparser.ordering import compile_ordering_text
+    sc = next(x for x in PINNED if x["name"] == case["name"])
+    neg = g.VENDORS[case["vendor"]]["neg"]
+    rb = compile_ordering_text(_subst(sc["order"], neg), case["vendor"])
+    got = g.to_nested(Orderer(rb, case["vendor"]).order_config(g.to_tree(_subst(sc["cfg"], neg))))
+    exp = _subst(sc["expected"], neg)
+    if got != exp:
+        return [("bounded:C08:order_config:pinned-order:" + sc["name"], "order_config does not give the order the statement prescribes "
+                 "(removals in mirrored rule order first, then commands in rule order, at every depth)", exp, got)]
+    return []
+
+
 def run_case(case):
     """-> (fails [(key, text, expected, actual)], evaluations, nontrivial)"""
+    if case["kind"] == "pinned":
+        return check_pinned_case(case), 1, True
     if case["kind"] == "rank":
         f, nt = check_rank_case(case)
         return f, 1, nt
